@@ -890,7 +890,7 @@ impl Prop for History {
                 Stream::new("corpus", 64, 1600).asan(64),
                 Stream::new("soak", 16, 64).asan(4),
             ],
-            Which::NoStale => vec![Stream::new("random", 48000, 2400000).miri(12), Stream::new("exhaustive", 648, 648).miri(0), Stream::new("soak", 16, 64)],
+            Which::NoStale => vec![Stream::new("random", 48000, 2400000).miri(12), Stream::new("exhaustive", NL * 81, NL * 81).miri(0), Stream::new("soak", 16, 64)],
             Which::Registry => vec![Stream::new("core", 16000, 800000).miri(8), Stream::new("bridge", 4000, 200000).miri(4)],
         }
     }
